@@ -434,6 +434,16 @@ def main(tier):
         nre, nim = check_refractive(ck, L, X, names, comps, nist_names, st)
         if config == 'shipped':
             root_probe(ck, L, X, st, tier)
+            # the _CP functions are functions of (compound, arguments) alone, in every build and host set-up the executor can put them in: call
+            # orders, no error slot, direct calls, the project's builds (default / release without assertions / unsigned char / static archive)
+            # inside the hostile host, FP traps, x87 precision control (execlib.independence) - on compounds that exercise the parser's corners
+            inames = ['H2O', 'Ca5(PO4)3F', 'Ca(OH)2', '(NH4)2(SO4)', 'CuSO4(H2O)5', 'Fe0.947O', 'La0.7Sr0.3MnO3', 'C6H12O6', '((CH3)2(CH2))2O', 'Fe((NH4)2(SO4))2', 'SiO2', 'Pb0.5Sn0.5Te',
+                      'K(AlSi3)O8', 'Water, Liquid', 'Kapton Polyimide Film', 'Air, Dry (near sea level)', 'Bone, Cortical (ICRP)', 'Xx', 'H2O)(', '']
+            iN, iE = [list(x) for x in zip(*[(n_, e_) for n_ in inames for e_ in (1.0, 8.04, 59.54)])]
+            st['calls'] += execlib.independence(ck, 'c06', config, [(f_, iN, np.array(iE)) for f_ in ('CS_Total_CP', 'CS_Photo_CP', 'CS_Rayl_CP', 'CS_Compt_CP', 'CS_Energy_CP', 'CSb_Total_CP')] +
+                                                [(f_, iN, np.array(iE), np.full(len(iE), 1.5)) for f_ in ('Refractive_Index_Re', 'Refractive_Index_Im')] +
+                                                [('DCS_Rayl_CP', iN, np.array(iE), np.full(len(iE), 0.7)), ('DCSP_Compt_CP', iN, np.array(iE), np.full(len(iE), 0.7), np.full(len(iE), 1.1))],
+                                                orders=('given', 'each-twice'))
         if nre < 1000 or nim < 1000:
             raise common.Inconclusive('too few refractive-index comparisons (%d, %d) in %s' % (nre, nim, config))
         for fn in kissel_fns:
